@@ -2,3 +2,5 @@
 import ClipperVerif.Spec.Basic
 import ClipperVerif.Driver.All
 import ClipperVerif.Props.C18
+import ClipperVerif.Props.C02
+import ClipperVerif.Props.C13Spec
